@@ -25,10 +25,19 @@ Record InvK1 (cb0 : bool) (s : est) : Prop := {
   k_gc : cz g_xc (gors s) = 0 \/ cstate s = 1;
   k_bad : cz g_badclose (gors s) = 0 }.
 
+Ltac finK1 s := cb; rw_eqs; rw_cnt; cb; try assumption; try (intros; assumption); czin; cb; uc; zeqh; uc; cb; try lia; czpos s; lia.
 Lemma stepK1 cb0 s w : (w = WSet -> b2z cb0 = 1) -> InvC s -> InvK1 cb0 s -> InvK1 cb0 (step s w).
 Proof.
   intros Hc [C1 C2 _ _] [K1 K2 K3 K4 K5 K6 K6a K6b]. pose proof (b2z_range cb0).
-  cases s w; try specialize (Hc eq_refl); brk; constructor; fin s.
+  constructor.
+  - clear C1 C2 K2 K3 K4 K5 K6 K6a K6b. cases s w; try specialize (Hc eq_refl); brk; finK1 s.
+  - clear C1 C2 K3 K4 K5 K6 K6a K6b. cases s w; try specialize (Hc eq_refl); brk; finK1 s.
+  - clear C1 C2 K2 K4 K5 K6 K6a K6b. cases s w; try specialize (Hc eq_refl); brk; finK1 s.
+  - clear K5 K6 K6a K6b. cases s w; try specialize (Hc eq_refl); brk; finK1 s.
+  - clear C1 C2 K3 K6 K6a K6b. cases s w; try specialize (Hc eq_refl); brk; finK1 s.
+  - cases s w; try specialize (Hc eq_refl); brk; finK1 s.
+  - cases s w; try specialize (Hc eq_refl); brk; finK1 s.
+  - clear C1 C2 K2 K3 K5 K6 K6a. cases s w; try specialize (Hc eq_refl); brk; finK1 s.
 Qed.
 
 Record InvK2 (s : est) : Prop := {
